@@ -337,7 +337,7 @@ def encode_fn(fn, S, auth, extra=None, side=None, ambient=False):  # type: ignor
     args = [a.arg for a in fdef.args.args]
     if not args:
         raise Unsupported("expected at least one parameter")
-    env = {"__side__": side if side is not None else []}
+    env = {"__side__": side if side is not None else [], "__globals__": getattr(inspect.unwrap(fn), "__globals__", {})}
     if ambient:
         env[args[0]] = ("opaque",)
         env["__ambient__"] = ("auth", auth)
@@ -424,6 +424,10 @@ def _val(S, n, env):
         raise Unsupported("constant")
     if isinstance(n, ast.Name):
         if n.id in env: return env[n.id]
+        g = env.get("__globals__", {}).get(n.id, None)
+        if isinstance(g, bool): raise Unsupported("name "+n.id)
+        if isinstance(g, int): return ("int", g)  # module-level integer constant, read from the live module
+        if isinstance(g, bytes): return ("bytes", _lit(S, g))
         raise Unsupported("name "+n.id)
     if isinstance(n, ast.Attribute) and isinstance(n.value, ast.Name) and env.get(n.value.id,(None,))[0]=="auth":
         a = env[n.value.id][1]
@@ -441,6 +445,32 @@ def _val(S, n, env):
             falsy = S.Length(l[2])==0 if l[1] is False else S.Or(l[1], S.Length(l[2])==0)
             return ("str", False, S.If(falsy, r[2], l[2]))
         raise Unsupported("or")
+    if isinstance(n, ast.Constant) and isinstance(n.value, int) and not isinstance(n.value, bool):
+        return ("int", n.value)
+    if isinstance(n, ast.Subscript) and isinstance(n.slice, ast.Slice) and n.slice.step is None:
+        # bytes[lo:hi] with constant (or module-constant) non-negative bounds
+        v = _val(S, n.value, env)
+        if v[0] != "bytes":
+            raise Unsupported("slice of non-bytes")
+        lo = _val(S, n.slice.lower, env) if n.slice.lower is not None else ("int", 0)
+        hi = _val(S, n.slice.upper, env) if n.slice.upper is not None else None
+        if lo[0] != "int" or not isinstance(lo[1], int) or lo[1] < 0 or (hi is not None and (hi[0] != "int" or not isinstance(hi[1], int) or hi[1] < 0)):
+            raise Unsupported("slice bounds")
+        if hi is None:
+            return ("bytes", S.SubString(v[1], lo[1], S.Length(v[1])))
+        return ("bytes", S.SubString(v[1], lo[1], max(hi[1] - lo[1], 0)))
+    if (isinstance(n, ast.Call) and isinstance(n.func, ast.Attribute) and n.func.attr in ("ljust", "rjust") and len(n.args) == 2 and not n.keywords
+            and isinstance(n.args[1], ast.Constant) and isinstance(n.args[1].value, bytes) and len(n.args[1].value) == 1):
+        v = _val(S, n.func.value, env)
+        w = _val(S, n.args[0], env)
+        if v[0] != "bytes" or w[0] != "int" or not isinstance(w[1], int):
+            raise Unsupported("ljust/rjust operands")
+        _FRESH[0] += 1
+        pad = S.String(f"__pad{_FRESH[0]}")
+        need = w[1] - S.Length(v[1])
+        env["__side__"].append(S.Length(pad) == S.If(need > 0, need, 0))
+        env["__side__"].append(S.InRe(pad, S.Star(S.Re(_lit(S, n.args[1].value)))))
+        return ("bytes", S.Concat(v[1], pad) if n.func.attr == "ljust" else S.Concat(pad, v[1]))
     if isinstance(n, ast.Call) and isinstance(n.func, ast.Name) and n.func.id == "len" and len(n.args) == 1:
         v = _val(S, n.args[0], env)
         if v[0] == "bytes":
@@ -554,11 +584,27 @@ def identity_corpus() -> list:
     return out
 
 
+METHOD_CORPUS = (
+    None,
+    "",
+    "a",
+    "exchange",
+    "\u00e9x",
+    "generate",
+    "convert_measurements_by_region_and_unit_to_metric",
+    "convert_measurements_by_region_and_unit_to_imperial",
+    "m" * 31,
+    "m" * 32,
+    "m" * 33,
+    "m" * 300,
+)
+
+
 def validate_identity_translation(fn, as_bytes, method_param: str | None = None) -> dict:  # type: ignore[no-untyped-def]
     """Real function vs its SMT term on the concrete corpus (both solvers)."""
     bad: list = []
     n = 0
-    methods = (None, "", "a", "exchange", "\u00e9x") if method_param else (None,)
+    methods = METHOD_CORPUS if method_param else (None,)
     for name, S, _b in solvers():
         for auth in identity_corpus():
             for mv in methods:
